@@ -334,6 +334,21 @@ func run(c Case) (pbt.Outcome, error) {
 			errs.Addf("no histogram samples delivered")
 		}
 	} else {
+		// "the tags delivered for one scope never change over its lifetime", whatever the reader of an
+		// earlier snapshot did with the maps it was given (a snapshot is a copy)
+		pre := ts.Snapshot()
+		for _, e := range pre.Counters() {
+			pbt.Spoil(e.Tags())
+		}
+		for _, e := range pre.Gauges() {
+			pbt.Spoil(e.Tags())
+		}
+		for _, e := range pre.Timers() {
+			pbt.Spoil(e.Tags())
+		}
+		for _, e := range pre.Histograms() {
+			pbt.Spoil(e.Tags())
+		}
 		snap := ts.Snapshot()
 		check := func(kind, n string, tags map[string]string, ok bool) {
 			if !ok {
@@ -393,7 +408,7 @@ func run(c Case) (pbt.Outcome, error) {
 func TestC04(t *testing.T) {
 	pbt.Main(t, pbt.Prop[Case]{
 		ID: "C04", Name: "derivation",
-		Rule: "rapid-generated derivation programs: a root (any prefix, separator incl. empty and multi-byte, tags; no sanitizer with arbitrary byte strings, or generated SanitizeOptions) followed by 0..6 SubScope/Tagged steps drawing tag keys from a small pool so that keys get re-tagged, the caller's maps mutated (add/overwrite/delete) after each call, then one metric of every kind recorded over 1..3 report passes; observed via plain reporter, cached Allocate*/handles, or test-scope Snapshot. Oracle: reference scope model (name fold, right-biased overlay, reference sanitizer); library never mutates caller maps; later caller-side mutation changes nothing; tags equal on every pass. Cases that fall into C05's recorded delimiter ambiguity (different identities with byte-equal canonical key) are counted as excluded only while that finding is listed open. Non-trivial: depth>=2 with a re-tagged key, or a caller map mutated after use, or an empty/non-ASCII/invalid-UTF-8 name component. Distinct: FNV-64 of the case JSON.",
+		Rule: "rapid-generated derivation programs: a root (any prefix, separator incl. empty and multi-byte, tags; no sanitizer with arbitrary byte strings, or generated SanitizeOptions) followed by 0..6 SubScope/Tagged steps drawing tag keys from a small pool so that keys get re-tagged, the caller's maps mutated (add/overwrite/delete) after each call, then one metric of every kind recorded over 1..3 report passes; observed via plain reporter, cached Allocate*/handles, or test-scope Snapshot (taken twice, the tag maps of the first one's entries scribbled over by the reader). Oracle: reference scope model (name fold, right-biased overlay, reference sanitizer); library never mutates caller maps; later caller-side mutation changes nothing; tags equal on every pass. Cases that fall into C05's recorded delimiter ambiguity (different identities with byte-equal canonical key) are counted as excluded only while that finding is listed open. Non-trivial: depth>=2 with a re-tagged key, or a caller map mutated after use, or an empty/non-ASCII/invalid-UTF-8 name component. Distinct: FNV-64 of the case JSON.",
 		Gen:  gen, Run: run, HangAfter: 20 * time.Second,
 	})
 }
